@@ -79,6 +79,7 @@ def run(ctx):
              floor=8, floor_what='module-level mutable objects + table classes examined')
     ctx.rule('R12.2', 're-entrancy flags stored on function objects are reset in a finally on every exit', floor=1)
     ctx.rule('R12.3', 'lru_cache-memoised functions on the path read only their arguments and never-rebound constants', floor=2)
+    ctx.rule('R12.6', 'classes with value equality/hash on the diff/merge path compare every field their behaviour reads (cache-key purity)', floor=1)
     ctx.rule('R12.4', 'reset_notebook_differ deletes the explicit keys only; set_notebook_diff_ignores(False) deletes under a membership guard', floor=2)
     ctx.rule('R12.5', 'the configuration API is not reachable from the library API nor from request handlers '
              '(one named, cached, first-request-only exemption)', floor=10)
@@ -287,6 +288,37 @@ def run(ctx):
         ctx.inst('R12.3', fid, '@lru_cache; reads via %d reachable function(s)' % len(cg.reachable([fid])), ok,
                  'result depends only on the key (arguments); no mutable or rebindable module state is read' if ok else
                  '; '.join('%s: %s' % (g, w) for g, _, w in bad[:3]) + ' -- a cached verdict can be stale', bad[0][1] if bad else fn)
+
+    # ---- R12.6 objects that serve as memoisation keys compare all the state their behaviour depends on
+    n_vo = 0
+    for cid, c in sorted(repo.classes.items()):
+        if not cid.startswith(('nbdime.diffing.', 'nbdime.merging.', 'nbdime.utils', 'nbdime.diff_')):
+            continue
+        methods = {st.name: st for st in c.body if isinstance(st, FuncTypes)}
+        if '__eq__' not in methods and '__hash__' not in methods:
+            continue
+        n_vo += 1
+
+        def attrs(fnode, names=('self',)):
+            return {n.attr for n in ast.walk(fnode) if isinstance(n, ast.Attribute) and isinstance(n.value, ast.Name) and n.value.id in names}
+        state = set()
+        if '__init__' in methods:
+            state |= {n.attr for n in ast.walk(methods['__init__']) if isinstance(n, ast.Attribute) and isinstance(n.ctx, ast.Store)
+                      and isinstance(n.value, ast.Name) and n.value.id == 'self'}
+        for name, mnode in methods.items():
+            if name not in ('__init__', '__eq__', '__ne__', '__hash__', '__repr__', '__str__'):
+                state |= attrs(mnode)
+        state = {a for a in state if not a.startswith('__')}
+        in_eq = attrs(methods['__eq__'], ('self', 'other')) if '__eq__' in methods else set()
+        in_hash = attrs(methods['__hash__']) if '__hash__' in methods else None
+        missing_eq = sorted(state - in_eq) if '__eq__' in methods else []
+        missing_hash = sorted(state - in_hash) if in_hash is not None else []
+        ok = not missing_eq and not (missing_hash and '__eq__' not in methods)
+        ctx.inst('R12.6', cid, 'state %s; __eq__ compares %s; __hash__ uses %s' % (sorted(state), sorted(in_eq), sorted(in_hash) if in_hash is not None else None), ok,
+                 'two instances that behave differently never compare equal (safe as cache keys)' if ok else
+                 'instances differing in %s compare equal: used as an lru_cache/dict key, the first computed answer is served for the other one -- the result depends on call history' % missing_eq,
+                 methods.get('__eq__', c))
+    ctx.inst('R12.6', 'nbdime.diffing/merging', '%d class(es) define __eq__/__hash__' % n_vo, True, 'value-compared classes examined', None, nontrivial=False)
 
     # ---- R12.4 reset helper
     rn = repo.func('nbdime.diffing.notebooks:reset_notebook_differ')
